@@ -96,6 +96,7 @@ def gen_program(rng, size: int = 10, with_args: bool = True, control_flow: bool 
             "reshape", "reshape_computed", "expand", "tile", "slice", "gather", "concat", "transpose",
             "reduce", "topk", "split", "unique", "seq", "seq_at", "optional", "where", "inline",
             "range", "const_of_shape", "size", "identity", "unsqueeze", "if", "binary_arg", "concat_from_seq",
+            "arg_default", "arg_default", "seq_pair", "opt_pair",
         ])
         if choice == "const":
             new_const()
@@ -104,6 +105,30 @@ def gen_program(rng, size: int = 10, with_args: bool = True, control_flow: bool 
         elif choice == "arg":
             if with_args:
                 new_arg()
+        elif choice == "arg_default":
+            # an argument WITH a default: the run-time binding overrides it, so it is no constant
+            if with_args:
+                dt = rng.choice(["i64", "f32"])
+                shape = rng.choice([[3], [2, 3], [2]])
+                emit({"op": "arg_default", "dt": dt, "shape": shape, "data": _data(rng, dt, shape), "name": f"d{len(vs)}"},
+                     _V("tensor", dt, list(shape), False))
+        elif choice == "seq_pair":
+            # structurally identical nodes whose Sequence inputs have equal types but different contents
+            dt, shape = rng.choice(["i64", "f32"]), rng.choice([[2], [3]])
+            xs = [new_const(dt, shape, "value") for _ in range(4)]
+            s1 = emit({"op": "sequence_construct", "args": [xs[0], xs[1]]}, _V("seq", dt, shape, True, 2))
+            s2 = emit({"op": "sequence_construct", "args": [xs[2], xs[3]]}, _V("seq", dt, shape, True, 2))
+            t = emit({"op": "const", "how": "value", "dt": "i64", "shape": [], "data": [rng.randrange(2)]}, _V("tensor", "i64", [], True))
+            for sq in (s1, s2):
+                emit({"op": "sequence_at", "args": [sq, t]}, _V("tensor", dt, shape, True))
+            for sq in (s1, s2):
+                emit({"op": "concat_from_sequence", "args": [sq]}, _V("tensor", dt, [shape[0] * 2], True))
+        elif choice == "opt_pair":
+            dt, shape = rng.choice(["i64", "f32"]), rng.choice([[2], [3]])
+            xs = [new_const(dt, shape, "value") for _ in range(2)]
+            os_ = [emit({"op": "optional", "args": [x]}, _V("opt", dt, shape, True)) for x in xs]
+            for o in os_:
+                emit({"op": "optional_get_element", "args": [o]}, _V("tensor", dt, shape, True))
         elif choice == "unary":
             i = pick(is_num)
             if i is not None:
@@ -340,6 +365,10 @@ def apply_step(step: dict, vars_: list) -> list:
         return [op.constant(**{how: list(step["data"])})]
     if o == "arg":
         return [argument(Tensor(_NP[step["dt"]], tuple(step["shape"])))]
+    if o == "arg_default":
+        from spox._graph import arguments
+
+        return list(arguments(**{step["name"]: _array(step)}))
     if o in ("neg", "abs", "identity", "shape", "size", "transpose", "optional", "optional_get_element",
              "concat_from_sequence"):
         if o == "concat_from_sequence":
@@ -519,14 +548,18 @@ def c07_check_program(steps: list, sel: str, seed: int) -> dict:
     if r["raised"]:
         return {"failures": [], "stats": stats, "infra": f"program raised {r['raised']}"}
     vars_ = r["vars"]
-    valued = [(i, v) for i, v in enumerate(vars_) if v._value is not None]
+    valued = [(i, v) for i, v in enumerate(vars_) if L.has_value(v)]
     stats["valued"] = len(valued)
     for i, v in valued:
         opn = steps[r["step_of_var"][i]]["op"]
-        why = L.conforms(v._value.value, v.type)
+        why = L.conforms_var(v)
         if why:
             fails.append((f"value-not-of-type:{opn}:{type_key(v.type)}", f"var {i} of {opn}: {why}; type {v.type}"))
-        if has_argument_in_cone(v):
+        try:
+            dep = has_argument_in_cone(v)
+        except Exception:  # noqa: BLE001 - graph walk not observable: the execution comparison still runs
+            dep = False
+        if dep:
             fails.append((f"input-dependent:{opn}", f"var {i} of {opn} carries a value but depends on an argument"))
     args = {f"a{i}": v for i, v in enumerate(vars_) if _is_arg(v)}
     exposed = [(i, v) for i, v in enumerate(vars_) if _exposable(v)]
@@ -543,7 +576,7 @@ def c07_check_program(steps: list, sel: str, seed: int) -> dict:
             return {"failures": fails, "stats": stats, "infra": f"ort failed {type(e).__name__}: {str(e)[:200]}"}
         for (i, v), o in zip(exposed, outs):
             opn = steps[r["step_of_var"][i]]["op"]
-            if v._value is not None:
+            if L.has_value(v):
                 stats["compared"] += 1
                 if opn in ("topk", "split", "unique", "inline"):
                     stats["multi"] += 1
@@ -614,11 +647,11 @@ def c15_check_program(steps: list, sel: str, k: int, kind: str, at: str, exc_id:
     effective = True
     for i, (vf, vb) in enumerate(zip(faulty["vars"], base["vars"])):
         opn = steps[base["step_of_var"][i]]["op"]
-        if vf._value is not None:
-            why = L.conforms(vf._value.value, vf.type)
+        if L.has_value(vf):
+            why = L.conforms_var(vf)
             if why:
                 fails.append((f"bad-value:{kind}:{type_key(vf.type)}", f"[{sel}] var {i} of {opn}: attached value does not conform to {vf.type}: {why}"))
-            if vb._value is None or values_equal(vf._get_value(), vb._get_value()):
+            if not L.has_value(vb) or values_equal(vf._get_value(), vb._get_value()):
                 effective = False  # the fault produced a conforming but different value: out of scope
     if effective:
         for i, (vf, vb) in enumerate(zip(faulty["vars"], base["vars"])):
@@ -747,7 +780,7 @@ def record_history(steps: list, sel: str, script=None, at: str = "run") -> dict:
                 node = new[0]._op
                 idx = len(hist)
                 outs = [{"key": key, "type": L.canon_type(v.type)} for key, v in node.outputs.get_vars().items()]
-                if st["op"] == "arg":
+                if st["op"] in ("arg", "arg_default"):
                     hist.append({"k": "argument", "key": "arg", "type": L.canon_type(new[0].type)})
                 elif st["op"] == "const":
                     arr = _const_array(st)
@@ -778,8 +811,8 @@ def record_history(steps: list, sel: str, script=None, at: str = "run") -> dict:
                 real_vals.append([{"key": key, "value": L.canon_pv(v._value, reg)}
                                   for key, v in node.outputs.get_vars().items()])
                 for key, v in node.outputs.get_vars().items():
-                    if v._value is not None:
-                        why = "untyped-var" if v.type is None else L.conforms(v._value.value, v.type)
+                    if L.has_value(v):
+                        why = L.conforms_var(v)
                         if why:
                             nonconf.append((f"value-not-of-type:{st['op']}:{type_key(v.type)}",
                                             f"[{sel}] {st['op']}->{key}: attached value does not conform to {v.type}: {why}"))
